@@ -1447,6 +1447,13 @@ void EvalStrExpression(tStrComp const* pExpr, TempResult* pErg) {
         for (z2 = pOp->Dyadic ? 0 : 1; z2 < 2; z2++) {
             TypeMask = (BestOpMatch >> (z2 * 4)) & 15;
             if (TypeMask & 2) { /* String -> Int */
+                /* only a string of 1..4 characters has an integer value: */
+                if (NonZString2Int(&InVals[z2].Contents.str) < 0) {
+                    WrStrErrorPos(
+                            (TypeMask & 1) ? ErrNum_FloatButString : ErrNum_IntButString,
+                            &InArgs[z2]);
+                    LEAVE;
+                }
                 TempResultToInt(&InVals[z2]);
             }
             if (TypeMask & 1) { /* Int -> Float */
